@@ -1,4 +1,4 @@
-import JunoModel.C05.Proofs
+import JunoModel.C05.ProofsFilter3
 /-!
 C05 — property theorems (statements only; proofs are in `Proofs*.lean`).
 
@@ -26,6 +26,91 @@ theorem one_commit_per_call (W : Nat) (fx : Fixes) (n : Node) (op : Op) (h : ∀
     (plan W fx n op).commits.length ≤ 1 :=
   commits_le_one W fx n op h
 
+/-! ## Every reachable image is coherent -/
+
+/-- `consistent_image`: for every history of store / revert / set-L1-head / snapshot / graceful and
+ungraceful restart calls from the empty node, every fault schedule (any commit failing, a crash
+after any commit) and every repair variant of the code, the disk image describes exactly one
+well-formed chain `c` (`Coh`): height = last block, header / transactions / state update /
+commitments present for exactly the blocks of `c`, hash→number and transaction-hash lookups
+exactly those of `c` (none dangling), state = the head's. Inputs: stored blocks carry unused
+hashes (`ValidHist`); `prune` is treated separately. -/
+theorem consistent_image (W : Nat) (fx : Fixes) (hs : List (Op × Fault))
+    (hv : ValidHist W fx Node.init hs) :
+    ∃ c, WfChain c ∧ Coh c (run W fx Node.init hs).disk :=
+  consistent_image_chain W fx hs Node.init cinv_init hv
+
+/-- One call from any coherent node, any fault: the image stays coherent (the invariant step). -/
+theorem call_keeps_image_coherent (W : Nat) (fx : Fixes) (n : Node) (op : Op) (ft : Fault)
+    (hfresh : ∀ b, op = .store b → Fresh n.disk b) (hp : ∀ e, op ≠ .prune e)
+    (hi : ∃ c, WfChain c ∧ Coh c n.disk) :
+    ∃ c, WfChain c ∧ Coh c (exec W fx n op ft).1.disk :=
+  exec_cinv W fx n op ft hfresh hp hi
+
+/-! ## Restart and the next block
+
+`Good W c n` (ModelSpec): the image describes chain `c` (`Coh`), the persisted bloom windows are
+exactly the complete windows of `c`, each without false negatives (`WinsOK`), the persisted
+snapshot — if any — describes a prefix of `c` (`SnapOK`), and the in-memory filter is lazy or
+describes `c` (`MemOK`).
+
+Full-strength statements the property asks for, and why they carry `_partial`:
+
+    restart_ok            : ∀ histories hs and fault schedules, initFilter on (run hs).disk yields a
+                            filter that describes the disk's chain
+    memory_tracks_disk    : after a call that returned an error, the in-memory filter describes the
+                            disk's chain (equals what a restart would build)
+    next_block_storable   : after any crash or failed call, Store of the next block returns ok
+
+The chain part of `Good` is invariant under every history and fault (`consistent_image`). The
+window / snapshot / memory part is NOT, on the unrepaired code: a failed Store / RevertHead commit
+leaves the memory filter mutated (L4), RevertHead keeps a stale snapshot (L3) and the persisted
+window of a window that lost its last block (L15) — the proved negations below are the witnesses.
+What is proved for ALL good nodes: a restart builds the right filter, and the next block is
+stored. What is missing for the full statements: the proof that `Good` is preserved by every call
+of the REPAIRED code (`Fixes.all`) — the harness checks it on the real code at every crash point
+and failed commit instead. -/
+
+/-- `restart_ok` for good disks: InitializeRunningEventFilter succeeds and yields a filter that
+expects block `height+1`, has the aligned window of that block, and has no false negative for any
+block of the chain in it — whichever path it takes (snapshot as is, snapshot + fill, rebuild from
+the last persisted window). -/
+theorem restart_ok_partial (W : Nat) (hW : 0 < W) (c : List Block) (d : Disk)
+    (hwf : WfChain c) (hc : Coh c d) (hw : WinsOK W c d) (hs : SnapOK W c d) :
+    ∃ f d', initFilter W d = some (f, d') ∧ FiltOK W c f :=
+  initFilter_good hW hwf hc hw hs
+
+/-- `next_block_storable` for good nodes (in particular right after a restart or crash, memory
+lazy): Store of the block the network offers next returns ok, the height becomes its number and
+its header is readable. -/
+theorem next_block_storable_partial (W : Nat) (hW : 0 < W) (fx : Fixes) (c : List Block) (n : Node)
+    (b : Block) (hg : Good W c n) (hn : NextBlock c n.disk b) :
+    (exec W fx n (.store b) .none).2 = .ok ∧
+      getHeight (exec W fx n (.store b) .none).1.disk = some b.num ∧
+      getBlk (exec W fx n (.store b) .none).1.disk (.header b.num) = some b :=
+  ⟨store_ok_of_good hW fx hg hn, store_height_of_good hW fx hg hn⟩
+
+/-- The in-memory filter follows a successful Store: from a filter that describes `c`, inserting
+the next block gives a filter that describes `c ++ [b]`; exactly at the end of a window the full
+window (no false negatives) is handed to the batch. -/
+theorem memory_tracks_store (W : Nat) (hW : 0 < W) (c : List Block) (f : Filt) (b : Block)
+    (hf : FiltOK W c f) (hb : b.num = c.length) :
+    ∃ f' ws, f.insert W b.bits b.num = some (f', ws) ∧ FiltOK W (c ++ [b]) f' ∧
+      ((ws = [] ∧ (c.length + 1) % W ≠ 0) ∨
+       (∃ w', ws = [.put (.win (wstart W c.length)) (.win w')] ∧ (c.length + 1) % W = 0 ∧
+          w'.lo = wstart W c.length ∧
+          ∀ x i, wstart W c.length ≤ x → x < wstart W c.length + W → bitIn (c ++ [b]) x i →
+            w'.has x i = true)) :=
+  insert_filtOK hW hf hb
+
+-- non-vacuity: the empty node is good for every window size
+example (W : Nat) (hW : 0 < W) : Good W [] Node.init := by
+  refine ⟨cinv_init_wf, cinv_init_coh, ⟨?_, ?_⟩, ?_, ?_⟩
+  · intro lo; simp [getWin, Node.init, Disk.empty]; omega
+  · intro lo w h; simp [getWin, Node.init, Disk.empty] at h
+  · simp [SnapOK, Node.init, Disk.empty]
+  · simp [MemOK, Node.init]
+
 /-! ## Witnesses: where the unrepaired code breaks the property (window size 2 or 4 so that the
 kernel can run them; the harness replays the same histories on the real code with 8192) -/
 
@@ -33,6 +118,13 @@ def b0 : Block := ⟨0, 1, 0, 11, 0, [5], [100]⟩
 def b1 : Block := ⟨1, 2, 1, 12, 11, [6], [101]⟩
 def b1' : Block := ⟨1, 7, 1, 17, 11, [9], [107]⟩
 def b2 : Block := ⟨2, 3, 2, 13, 12, [7], []⟩
+
+-- non-vacuity: a history with a failed commit, a crash, a revert and a restart meets `ValidHist`
+example : ValidHist 4 .none Node.init
+    [(.store b0, .none), (.store b1, .failAt 0), (.store b1, .crashAfter 0), (.revert, .none),
+     (.restart, .none), (.store b1', .none)] := by
+  simp only [ValidHist]
+  refine ⟨⟨?_, ?_, ?_⟩, ⟨?_, ?_, ?_⟩, ⟨?_, ?_, ?_⟩, trivial, trivial, ⟨?_, ?_, ?_⟩, trivial⟩ <;> decide
 
 /-- L4 (store): a commit failure while storing the last block of a window leaves the in-memory
 filter rolled over; the retry of the same block fails with "block number is not within range". -/
